@@ -359,6 +359,7 @@ def rewrite_R12(text):
 
 def rewrite_R2(text):
     text = re.sub(r"unsafe\s*\{\s*([A-Za-z_\.]+(?:\.as_ref\(\)\?)?)\s*\.get_mut\(\s*([^)]*?)\s*\)\s*\}", r"&\1.0[\2]", text)
+    text = re.sub(r"unsafe\s*\{\s*Some\(\s*([A-Za-z_\.]+)\s*\.get_mut\(\s*([^)]*?)\s*\)\s*\)\s*\}", r"Some(&\1.0[\2])", text)
     text = re.sub(r"&\s*('[a-z_]+\s+)?mut\s+(?!self\b)", lambda m: "&" + (m.group(1) or ""), text)
     text = text.replace(".as_mut()", ".as_ref()")
     text = text.replace("prefix_value_mut", "prefix_value")
@@ -781,7 +782,7 @@ def emit_fn(out, u, fs, rules_used):
     head = re.sub(r"^\s*(pub\s+)?", "pub ", head, count=1)
     head = head.replace("pub unsafe fn", "pub fn").replace("pub pub", "pub")
     if fs.emit_name:
-        head = re.sub(r"\bfn\s+%s\b" % re.escape(it.name), "fn " + fs.emit_name, head, count=1)
+        head = re.sub(r"\bfn\s+(?:%s|%s)\b" % (re.escape(it.name), re.escape(it.name.replace("prefix_value_mut", "prefix_value"))), "fn " + fs.emit_name, head, count=1)
     if fs.opts.get("demote"):
         pass
     sig_line = head
